@@ -37,6 +37,7 @@ void begin_run(int64_t run_index) {
   rt.ub.clear();
   rt.races.clear();
   rt.phase = "setup";
+  rt.tags[0] = 0;
 }
 void set_phase(const char* p) { rt.phase = p; }
 
@@ -48,8 +49,8 @@ void crash_marker(const char* kind, const char* detail) {
     else if (static_cast<unsigned char>(*p) < 0x20) d.push_back(' ');
     else d.push_back(*p);
   }
-  int n = snprintf(buf, sizeof buf, "\n{\"crash\":\"%s\",\"detail\":\"%s\",\"prop\":\"%s\",\"build\":\"%s\",\"run\":%lld,\"phase\":\"%s\"}\n",
-                   kind, d.c_str(), rt.property, rt.build, static_cast<long long>(rt.run_index), rt.phase);
+  int n = snprintf(buf, sizeof buf, "\n{\"crash\":\"%s\",\"detail\":\"%s\",\"prop\":\"%s\",\"build\":\"%s\",\"run\":%lld,\"phase\":\"%s\",\"tags\":\"%s\"}\n",
+                   kind, d.c_str(), rt.property, rt.build, static_cast<long long>(rt.run_index), rt.phase, rt.tags);
   if (n > 0) { ssize_t w = write(1, buf, static_cast<size_t>(std::min<int>(n, sizeof buf - 1))); (void)w; }
 }
 
@@ -117,6 +118,7 @@ std::string symbolize_fn(uintptr_t pc) {
   buf[0] = 0;
   __sanitizer_symbolize_pc(reinterpret_cast<void*>(pc), "%f", buf, sizeof buf);
   std::string s = buf;
+  for (size_t q; (q = s.find("(anonymous namespace)::")) != std::string::npos;) s.erase(q, 23);
   // Strip the argument list so that the class string is stable.
   size_t par = s.find('(');
   if (par != std::string::npos) s.resize(par);
